@@ -5,7 +5,7 @@ from check import canon as canon_
 
 RULE = ("keygen and sign with aux in {none, all zero of many lengths, previously filled, every single-bit flip (quick: a stride) of a filled buffer, truncated, padded, "
         "00||garbage, in-use marker||garbage, filled for another seed, filled for the same seed with other parameters} x hashes; oracle: key pair / signature / successor "
-        "equal to the aux-free ones; after keygen on a fresh buffer: shrunk length, level word, MAC recomputed independently, and acceptance of the written buffer; feature fast_verify: sign_mut with absent/fresh/short/filled/garbage buffers compared with the aux-free model for the returned trailer")
+        "equal to the aux-free ones; after keygen on a fresh buffer: shrunk length, level word, MAC recomputed independently, and acceptance of the written buffer; feature fast_verify: sign_mut with absent/fresh/short/filled/garbage buffers compared with the aux-free model for the returned trailer; the C14 configurations: aux layout hook and real keygen/sign with buffers caching every level, top tree as tall as the build allows")
 ASSUMPTIONS = ["a MAC-valid buffer for a different seed would be a MAC forgery and is not constructed",
                "the hash-sigs layout (level word, cached levels h, h-2, ..., HMAC-like MAC keyed by H(prefix||seed)) is taken from aux.rs / the property statement"]
 
@@ -246,6 +246,7 @@ def run(ctx):
                                         "observed": fields(r2[1][1]).get("vk"), "expected": fields(r2[0][1]).get("vk"), "aux_class": "same-seed-other-params"})
 
     sign_mut_part(ctx)
+    config_part(ctx)
 
 
 def sign_mut_part(ctx):
@@ -299,3 +300,57 @@ def sign_mut_part(ctx):
     for c, a, b in ctx.both(ver, None):
         if a != "ok":
             ctx.fail("a sign_mut signature made with an auxiliary buffer does not verify", [c.meta["of"][:400]], a, "ok")
+
+
+def config_part(ctx):
+    """constrained builds (C14 configurations): MAX_TREE_HEIGHT is smaller there, so the top tree can have exactly the maximum height of
+    the build and a modest buffer caches every level up to the leaves"""
+    from . import C14
+    rng = ctx.rng
+    for cfg in (C14.CONFIGS_QUICK if ctx.tier == "quick" else C14.CONFIGS_THOROUGH):
+        L = int(cfg["HBS_LMS_MAX_ALLOWED_HSS_LEVELS"])
+        hs = [int(x) for x in cfg["HBS_LMS_TREE_HEIGHTS"].split(", ")]
+        ws = [int(x) for x in cfg["HBS_LMS_WINTERNITZ_PARAMETERS"].split(", ")]
+        if not ctx.open(cfg):
+            continue
+        maxh = max(hs)
+        shape_cases = []
+        for H in ("S32", "K24", "S16"):
+            n = HASHES[H]
+            for t in (1, 5, 6, 7, 8, 9):
+                h0 = LMS_H[t]
+                if h0 > hs[0]:
+                    continue
+                lens = {4 + n, 4 + n + (n << 1), 1000, 70000, 4 + n + sum(n << l for l in range(1, h0 + 1)), 4 + n + sum(n << l for l in range(1, h0 + 1)) + 100, 4 + n + (n << h0)}
+                for Ln in sorted(x for x in lens if x < 2 ** 27):
+                    shape_cases.append(Case("auxshape H=%s lms=%d len=%d" % (H, t, Ln), "cfg/auxshape/h%d%s" % (h0, "=max" if h0 == maxh else ""), {"n": n, "L": Ln}))
+        for c, a, b in ctx.both(shape_cases, None):
+            if a.startswith("panic"):
+                ctx.fail("aux layout computation panicked in the build %s" % json.dumps(cfg), [c.line], a, "ok ...")
+                continue
+            f = fields(a)
+            n = c.meta["n"]
+            layers = [] if f.get("layers") in (None, "-") else [tuple(map(int, x.split(":"))) for x in f["layers"].split(",")]
+            if layers and (any(sz != (n << lvl) for lvl, sz in layers) or int(f["mac"]) != n or int(f["len"]) != 4 + sum(sz for _, sz in layers) + n):
+                ctx.fail("fresh aux buffer layout is inconsistent in the build %s" % json.dumps(cfg), [c.line], a, "level sizes n*2^level, MAC of n bytes, length 4 + levels + n")
+        # real keys whose top tree is as tall as the build allows (affordable heights only)
+        top_lms = max(t for t in (1, 5, 6) if LMS_H[t] <= hs[0])
+        top_ots = {1: 1, 2: 2, 4: 3, 8: 4}[max(ws[0], 2)]
+        reqs = []
+        for H in ("S32", "S16"):
+            n = HASHES[H]
+            seed = rng.bytes_(n)
+            ps = [(top_ots, top_lms)]
+            big = 4 + n + sum(n << l for l in range(1, LMS_H[top_lms] + 1)) + 64
+            ref_kg = keygen_line(H, ps, seed)
+            ref_sg = sign_line(H, sk_blob(H, ps, seed, 1), b"cfg-aux")
+            for tag, ax in (("none", None), ("fresh-all-levels", bytes(big)), ("fresh-small", bytes(4 + n + 3 * n)), ("dirty", b"\0" + rng.bytes_(big))):
+                reqs.append(Case(keygen_line(H, ps, seed, ax), "cfg/keygen/aux-" + tag, {"ref": ref_kg}))
+                reqs.append(Case(sign_line(H, sk_blob(H, ps, seed, 1), b"cfg-aux", "accept", ax), "cfg/sign/aux-" + tag, {"ref": ref_sg}))
+        res = ctx.both(reqs, None)
+        refs = {c.line: a for c, a, b in res if c.line == c.meta["ref"]}
+        for c, a, b in res:
+            r = refs.get(c.meta["ref"], "")
+            fa, fr = fields(a) if not a.startswith("panic") else {}, fields(r)
+            if a.startswith("panic") or cls_of(a) != cls_of(r) or fa.get("vk") != fr.get("vk") or fa.get("sig") != fr.get("sig") or fa.get("cb") != fr.get("cb"):
+                ctx.fail("in the build %s the result with an auxiliary buffer (%s) differs from the result without" % (json.dumps(cfg), c.cls), [c.line[:300]], a[:160], r[:160])
